@@ -66,7 +66,8 @@ Definition expected_dml (c : dcase) := (did c, first_bad (dstrict c) (dinit c) (
 (* ---- multi-table DELETE / UPDATE over two joined tables ------------------------------------------- *)
 Inductive mstmt :=
 | MDelete (tp tc : bool) (on wh : option expr)
-| MUpdate (sets : list (nat * expr)) (on wh : option expr).
+| MUpdate (sets : list (nat * expr)) (on wh : option expr)
+| MDeleteK (k : jkind) (tp tc : bool) (lw rw : nat) (on wh : option expr).
 
 (* observed: the counts reported for p and c (or the error) and both tables right after *)
 Record mstep := mkMS { ms_stmt : mstmt; ms_counts : res (Z * Z); ms_p : list row; ms_c : list row }.
@@ -76,6 +77,7 @@ Definition mexec (ps cs : list row) (s : mstmt) : res ((list row * Z) * (list ro
   match s with
   | MDelete tp tc on wh => delete_join tp tc on wh ps cs
   | MUpdate sets on wh => do r <- update_join sets on wh ps cs; Ok (r, (cs, 0))
+  | MDeleteK k tp tc lw rw on wh => delete_join_k k tp tc lw rw on wh ps cs
   end.
 
 Fixpoint m_first_bad (ps cs : list row) (steps : list mstep) (k : N) : N :=
@@ -104,6 +106,9 @@ Fixpoint m_obs_ok (ps cs : list row) (steps : list mstep) : bool :=
            (Z.of_nat (length (ms_p s)) =? Z.of_nat (length ps) - np) && (Z.of_nat (length (ms_c s)) =? Z.of_nat (length cs) - nc)
            && sub_multiset (ms_p s) ps && sub_multiset (ms_c s) cs
        | Ok (np, nc), MUpdate _ _ _ => Nat.eqb (length (ms_p s)) (length ps) && rows_same cs (ms_c s)
+       | Ok (np, nc), MDeleteK _ _ _ _ _ _ _ =>
+           (Z.of_nat (length (ms_p s)) =? Z.of_nat (length ps) - np) && (Z.of_nat (length (ms_c s)) =? Z.of_nat (length cs) - nc)
+           && sub_multiset (ms_p s) ps && sub_multiset (ms_c s) cs
        end) && m_obs_ok (ms_p s) (ms_c s) steps'
   end.
 
